@@ -37,8 +37,8 @@ ASSUMPTIONS = [
     "coverage-phase requests with undocumented methods are not 'excluded operations'",
     "filter expressions whose pointer does not resolve are not judged",
 ]
-MIN_EVALUATIONS = {"quick": 1500, "thorough": 15000}
-MIN_NONTRIVIAL = {"quick": 400, "thorough": 3000}
+MIN_EVALUATIONS = {"quick": 1000, "thorough": 7000}
+MIN_NONTRIVIAL = {"quick": 400, "thorough": 2500}
 REACH_FLOORS = {"engine_runs": 10, "requests_attributed": 200, "state_machines_built": 100, "cli_translations": 200}
 SHARD_TIMEOUT = {"quick": 900, "thorough": 5400}
 
